@@ -280,7 +280,7 @@ fn oid_lists() -> Vec<Vec<Vec<u64>>> {
 
 pub fn run(thorough: bool) -> Report {
     // ---- integers: all values of 1..3 content octets, split into 64 shards; then the bands
-    let band: i64 = if thorough { 1 << 16 } else { 1 << 12 };
+    let band: i64 = if thorough { 1 << 20 } else { 1 << 14 };
     let mut centers: Vec<i128> = Vec::new();
     for k in 1..=8u32 {
         for c in [1i128 << (8 * k - 1), -(1i128 << (8 * k - 1)), 1i128 << (8 * k).min(126), -(1i128 << (8 * k).min(126))] {
